@@ -404,6 +404,7 @@ FindFirst(d, am, c, act, vid, fuel) ==          \* a vertex not on a hole, on a 
 Spread(d, am, first, prev, c, cp, np, fuel) ==
   IF c = INV \/ c = first THEN [cp |-> cp, np |-> np, err |-> ""]
   ELSE IF fuel = 0 THEN [cp |-> cp, np |-> np, err |-> "ub:point-fan-does-not-end"]
+  ELSE IF cp[c] # -1 THEN [cp |-> cp, np |-> np, err |-> "rej:corner-assigned-twice"]       \* finding F24, fix 0aa0a7c: every corner gets its point exactly once
   ELSE IF am[c] # am[prev] THEN Spread(d, am, first, c, SwingR(d, c), [cp EXCEPT ![c] = np], np + 1, fuel - 1)
   ELSE Spread(d, am, first, c, SwingR(d, c), [cp EXCEPT ![c] = cp[prev]], np, fuel - 1)
 Assign(d, vs, am, v, cp, np) ==
@@ -413,6 +414,7 @@ Assign(d, vs, am, v, cp, np) ==
   LET ff == IF v \notin d.nh \/ v \notin vs THEN [ok |-> TRUE, first |-> c]
             ELSE FindFirst(d, am, c, SwingR(d, c), am[c], 3 * Len(d.vc) + 12) IN
   IF ~ff.ok THEN [cp |-> cp, np |-> np, err |-> IF ff.first = INV THEN "ub:point-fan-does-not-end" ELSE "rej:assign-open-fan"] ELSE
+  IF cp[ff.first] # -1 THEN [cp |-> cp, np |-> np, err |-> "rej:corner-assigned-twice"] ELSE
   LET sp == Spread(d, am, ff.first, ff.first, SwingR(d, ff.first), [cp EXCEPT ![ff.first] = np], np + 1, 3 * Len(d.vc) + 12) IN
   IF sp.err # "" THEN sp ELSE Assign(d, vs, am, v + 1, sp.cp, sp.np)
 \* everything for one seam pattern.  Result: out, np, faces (points), used (bits consumed), pvidx / avidx (value index per point for the position
@@ -429,8 +431,9 @@ Seamed(r, nf, bits) ==
       C == 0..(3 * nf - 1)
       rc == ARecompute(d, es, vs, 0, [c \in C |-> INV], <<>>) IN
   IF rc.err # "" THEN [none EXCEPT !.out = rc.err, !.used = s0.used] ELSE
-  LET asg == Assign(d, vs, rc.am, 0, [c \in C |-> 0], 0) IN
+  LET asg == Assign(d, vs, rc.am, 0, [c \in C |-> -1], 0) IN
   IF asg.err # "" THEN [none EXCEPT !.out = asg.err, !.used = s0.used] ELSE
+  IF \E c \in C : asg.cp[c] = -1 THEN [none EXCEPT !.out = "rej:corner-without-point", !.used = s0.used] ELSE
   LET tp == Traverse(d, nf)
       da == [opp |-> [c \in C |-> AOpp(d, es, c)], ctv |-> rc.am, vc |-> rc.alm]
       ta == Traverse(da, nf)
